@@ -7,8 +7,8 @@ func registerProperty(p *Property) { propTable[p.ID] = p }
 func init() {
 	registerProperty(&Property{
 		ID:          "C01",
-		Rules:       []string{"codec-symmetry", "keyword-table", "zero-preserving", "proxy-complete", "ref-key", "escape", "name-verbatim", "marshal-receiver", "make-append-json", "dispatch-admits-shortest", "absence-is-nil", "encoder-constants-decodable"},
-		Explanation: "Decides the table agreements that JSON round-trip losslessness rests on: for every kind with hand-written codecs, every component is both encoded and decoded (codec-symmetry); every member the Swagger 2.0 / draft-4 meta-schemas define for a kind has a byte-identical JSON field or hand-coded holder (keyword-table); numeric keywords are pointer-typed and no omitempty sits on a non-pointer numeric (zero-preserving); anonymous encode proxies carry and populate every member of the component they replace (proxy-complete); writer and reader of $ref/$schema agree on the member name (ref-key). Added after seeding round 2: encoders emit user-chosen member names exactly (name-verbatim, both directions); the decoded $ref text reaches the reference parser unrewritten (ref-key text-verbatim); a slice filled by append starts empty (make-append-json); first-byte dispatches look at every input of two bytes or more, so {} and [] are dispatched (dispatch-admits-shortest); a decoder gives up early only on a nil test, never because the decoded value equals a zero constant (absence-is-nil). encoder-constants-decodable also folds decode+encode of every constant text an encoder can emit (true, false, {}, null) and requires the constant to come back.",
+		Rules:       []string{"codec-symmetry", "keyword-table", "zero-preserving", "proxy-complete", "ref-key", "escape", "name-verbatim", "marshal-receiver", "make-append-json", "dispatch-admits-shortest", "absence-is-nil", "encoder-constants-decodable", "store-outside-nil-guard"},
+		Explanation: "Decides the table agreements that JSON round-trip losslessness rests on: for every kind with hand-written codecs, every component is both encoded and decoded (codec-symmetry); every member the Swagger 2.0 / draft-4 meta-schemas define for a kind has a byte-identical JSON field or hand-coded holder (keyword-table); numeric keywords are pointer-typed and no omitempty sits on a non-pointer numeric (zero-preserving); anonymous encode proxies carry and populate every member of the component they replace (proxy-complete); writer and reader of $ref/$schema agree on the member name (ref-key). Added after seeding round 2: encoders emit user-chosen member names exactly (name-verbatim, both directions); the decoded $ref text reaches the reference parser unrewritten (ref-key text-verbatim); a slice filled by append starts empty (make-append-json); first-byte dispatches look at every input of two bytes or more, so {} and [] are dispatched (dispatch-admits-shortest); a decoder gives up early only on a nil test, never because the decoded value equals a zero constant (absence-is-nil). encoder-constants-decodable also folds decode+encode of every constant text an encoder can emit (true, false, {}, null) and requires the constant to come back. Added in round 5: a decoder that allocates a map on first use stores the element outside the `map == nil` branch (store-outside-nil-guard); named encode proxies returned by view functions are checked like anonymous ones (proxy-complete).",
 		NotCovered:  "round-trip equality of values (number formatting, free-form payloads, escaping of member names - see C06), deep nesting and combinations; x- members on externalDocs/xml objects (no holder in the types; informational note only)",
 	})
 }
@@ -26,7 +26,7 @@ func init() {
 	registerProperty(&Property{
 		ID:          "C20",
 		Rules:       []string{"copy-map", "clear-exact"},
-		Explanation: "The validation accessors are straight-line field copies and guarded clears, so their input/output relation is their shape. copy-map abstracts every SetValidations/Validations/WithValidations body (following delegation) to a map destination-field <- source-field over the field universe taken from the types and requires the identity on the carrier's validation set and no other write. clear-exact checks every Clear*Validations: each (guard, record, clear) triple names one field, reports its JSON keyword, records before clearing, stores the zero value; the cleared set equals the draft-4 family intersected with the carrier; nothing else is written; callbacks are applied by a deferred apply over the same slice; apply calls every callback once per record; Has*Validations reads only fields the matching clear clears.",
+		Explanation: "The validation accessors are straight-line field copies and guarded clears, so their input/output relation is their shape. copy-map abstracts every SetValidations/Validations/WithValidations body (following delegation) to a map destination-field <- source-field over the field universe taken from the types and requires the identity on the carrier's validation set and no other write. clear-exact checks every Clear*Validations: each (guard, record, clear) triple names one field, reports its JSON keyword, records before clearing, stores the zero value; the cleared set equals the draft-4 family intersected with the carrier; nothing else is written; callbacks are applied by a deferred apply over the same slice; apply calls every callback once per record; Has*Validations reads only fields the matching clear clears. Since round 5 both rules are decided on the effect normal form of each accessor (effsim.go): package helpers and function literals inlined, loops over literal tables unrolled, pointers to fields followed; so the copy maps and the (guard, record, clear, apply-once) discipline hold or fail for what the code does on each structural path, not for how it is spelled.",
 		NotCovered:  "aliasing (the set returned by Validations shares pointers with the receiver); HasXValidations being true before a clear for every member of the family (the property only requires it false afterwards)",
 	})
 }
@@ -35,7 +35,7 @@ func init() {
 	registerProperty(&Property{
 		ID:          "C15",
 		Rules:       []string{"lookup-table", "marshal-receiver", "lookup-guard"},
-		Explanation: "Decides, for every hand-written JSONLookup, agreement with the encoder's tables: a kind whose encoder emits vendor extensions consults Extensions[token]; every tag-driven component the encoder emits is consulted with jsonpointer.GetForToken (maps are indexed by the token); between two consultations a not-found failure falls through (the early error return is guarded by the negated test on the error text, whose constant is a prefix of the format string the pinned jsonpointer uses at its struct-field-not-found site, read from the module cache); the last consultation's result is returned; computed member names (default, decimal status codes) are answered; every kind C15 lists has a JSONLookup. lookup-guard: where a JSONLookup restricts a map consultation by a predicate on the member name, the decoders file names into that map under the same predicate; where it delegates to an alternative of the receiver depending on the receiver's state, the encoder emits that alternative under the same condition. A value found by a consultation is handed back under nothing stricter than a nil test (a stricter test such as swag.IsZero hides members that are present with a zero value).",
+		Explanation: "Decides, for every hand-written JSONLookup, agreement with the encoder's tables: a kind whose encoder emits vendor extensions consults Extensions[token]; every tag-driven component the encoder emits is consulted with jsonpointer.GetForToken (maps are indexed by the token); between two consultations a not-found failure falls through (the early error return is guarded by the negated test on the error text, whose constant is a prefix of the format string the pinned jsonpointer uses at its struct-field-not-found site, read from the module cache); the last consultation's result is returned; computed member names (default, decimal status codes) are answered; every kind C15 lists has a JSONLookup. lookup-guard: where a JSONLookup restricts a map consultation by a predicate on the member name, the decoders file names into that map under the same predicate; where it delegates to an alternative of the receiver depending on the receiver's state, the encoder emits that alternative under the same condition. A value found by a consultation is handed back under nothing stricter than a nil test (a stricter test such as swag.IsZero hides members that are present with a zero value). Since round 5 fall-through, final return, comma-ok and the guards on map consultations are read off the effect normal form of each JSONLookup (helpers, variadic packs, loops over literal lists and switches all normalise to the same sequence of consultations and conditions); a component is also accepted when every one of its members is answered by name from the field of that name.",
 		NotCovered:  "value equality of what is returned; $ref members (excluded by the property); escape decoding of tokens and reflection-based lookup on plain structs (jsonpointer/swag, trusted)",
 	})
 }
@@ -44,7 +44,7 @@ func init() {
 	registerProperty(&Property{
 		ID:          "C06",
 		Rules:       []string{"escape", "fragment-disjoint", "map-order", "total-order", "encode-readonly", "name-verbatim", "ok-before-compare", "encode-errflow"},
-		Explanation: "Decides the structural conditions of well-formed, collision-free, deterministic encoding: in every function reachable from a MarshalJSON method, whatever is written to an output buffer or returned as bytes is a constant, an encoder result (json.Marshal, MarshalJSON, strconv quoting, ConcatJSON of such) or a constant package table (escape); fragments concatenated into one object have pairwise disjoint tagged names, no tagged name enters the x- / path key space, user-keyed maps pass a constant-prefix filter, and Schema.ExtraProps is only filled after every tagged name, $ref, $schema and x- key has been removed (fragment-disjoint); a range over a map only feeds another map or a slice sorted before use (map-order); sort comparators break ties (total-order). name-verbatim: encoders store map keys of the model into the output under the key itself, not a rewriting of it. ok-before-compare: in the sort comparator a rank obtained with an ok flag is compared only where the flag is known true (decided by truth table over the flags), so the placeholder of an absent x-order never takes part in the order.",
+		Explanation: "Decides the structural conditions of well-formed, collision-free, deterministic encoding: in every function reachable from a MarshalJSON method, whatever is written to an output buffer or returned as bytes is a constant, an encoder result (json.Marshal, MarshalJSON, strconv quoting, ConcatJSON of such) or a constant package table (escape); fragments concatenated into one object have pairwise disjoint tagged names, no tagged name enters the x- / path key space, user-keyed maps pass a constant-prefix filter, and Schema.ExtraProps is only filled after every tagged name, $ref, $schema and x- key has been removed (fragment-disjoint); a range over a map only feeds another map or a slice sorted before use (map-order); sort comparators break ties (total-order). name-verbatim: encoders store map keys of the model into the output under the key itself, not a rewriting of it. ok-before-compare: in the sort comparator a rank obtained with an ok flag is compared only where the flag is known true (decided by truth table over the flags), so the placeholder of an absent x-order never takes part in the order. Added in round 5: in every function reachable from an encoder the error of each encoding call is returned or tested on the very variable it was assigned to, the error branch returning it (encode-errflow); a comparator does not discard the ok of a (rank, ok) producer, and its constant answers for 'only the left / only the right item has a rank' mirror each other (ok-before-compare).",
 		NotCovered:  "validity of free-form payload encoding (encoding/json), byte-identity across runs as an observed fact, duplicate keys arising from case-insensitive matching in encoding/json's decoder",
 	})
 }
@@ -95,7 +95,7 @@ func init() {
 	registerProperty(&Property{
 		ID:          "C02",
 		Rules:       []string{"thread-args", "switch-on-follow", "ref-store", "opts-copy-complete", "loader-shares-state", "entry-wiring", "location-prefix", "chain-ref-absolute", "denorm-final", "origin-compare", "escaped-into-decoded"},
-		Explanation: "Bisimilarity is a relation between run-time graphs and is not decided. Decided are the threading disciplines behind 'a $ref is always interpreted relative to the document that textually contains it': at every call between expander family members (found by role) the base-path argument derives only from the caller's own base path, from id re-scoping (setSchemaID), from updateBasePath for the resolver just created, or from RemoteURI() of the normalised ref just followed, and the loader argument only from the caller's loader or from transitiveResolver(current base, the $ref being followed) (thread-args); after a followed $ref, whatever is expanded next receives the transitive resolver and the updated base (switch-on-follow); kept refs are rewritten against the root frame (ref-store). location-prefix: 'same document' and 'below this folder' are never decided by a plain string prefix of one location in another (spec.json vs spec.json2); two genuine defects of that kind were found and repaired. chain-ref-absolute: the chain dereference, which moves to another base at every hop, continues each hop on the resolver for that hop's document and leaves the last $ref of a chain in absolute form for its callers. denorm-final and origin-compare as under C03. Five genuine defects of this kind were found (three of them first reported by independent seeding agents) and repaired. escaped-into-decoded: the decoded components of a url.URL are never assigned escaped text. chain-ref-absolute also requires that the hop guard excludes only the first hop and that the resolver of the next hop is chosen from the normalised reference of the hop just followed.",
+		Explanation: "Bisimilarity is a relation between run-time graphs and is not decided. Decided are the threading disciplines behind 'a $ref is always interpreted relative to the document that textually contains it': at every call between expander family members (found by role) the base-path argument derives only from the caller's own base path, from id re-scoping (setSchemaID), from updateBasePath for the resolver just created, or from RemoteURI() of the normalised ref just followed, and the loader argument only from the caller's loader or from transitiveResolver(current base, the $ref being followed) (thread-args); after a followed $ref, whatever is expanded next receives the transitive resolver and the updated base (switch-on-follow); kept refs are rewritten against the root frame (ref-store). location-prefix: 'same document' and 'below this folder' are never decided by a plain string prefix of one location in another (spec.json vs spec.json2); two genuine defects of that kind were found and repaired. chain-ref-absolute: the chain dereference, which moves to another base at every hop, continues each hop on the resolver for that hop's document and leaves the last $ref of a chain in absolute form for its callers. denorm-final and origin-compare as under C03. Five genuine defects of this kind were found (three of them first reported by independent seeding agents) and repaired. escaped-into-decoded: the decoded components of a url.URL are never assigned escaped text. chain-ref-absolute also requires that the hop guard excludes only the first hop and that the resolver of the next hop is chosen from the normalised reference of the hop just followed. Added in round 5 (chain-ref-absolute): the loader switch of the chain dereference compares the reference with the very base it was normalised against, still unmoved (resolver-switch-base); in the loop form it is made from the loop-carried loader (resolver-switch-from) and the base carried to the next hop is the document of the normalised reference (next-base); switch-on-follow also refuses a scope switched on a by-value copy of the $ref taken before it was followed, and accepts transitiveResolver+updateBasePath packaged in one helper.",
 		NotCovered:  "that normalizeURI, transitiveResolver's prefix test or resolveRef's root selection compute the right document (values) - in particular the wrong-document resolutions on multi-hop chains the property text mentions are value-level and invisible to these rules; map iteration order effects",
 	})
 	registerProperty(&Property{
@@ -110,7 +110,7 @@ func init() {
 	registerProperty(&Property{
 		ID:          "C17",
 		Rules:       []string{"no-goroutines", "lockset", "no-call-under-lock", "globals", "ctx-private", "encode-readonly"},
-		Explanation: "The package starts no goroutine (checked), so all concurrency is the caller's and the package's obligations are about what two calls can share. lockset (go/cfg must-hold): every access to a field of a struct that carries a sync.(RW)Mutex happens with the write lock (writes) or at least the read lock (reads) held on every path, and no return is reachable with a lock held; one audited exception is tied to the who-calls fact that makes it sound. no-call-under-lock: nothing but map operations happens in a locked region; sync.Once is used only through Do with a function that does not re-enter. globals + ctx-private: two calls on independent data share no writable memory other than a caller-supplied cache.",
+		Explanation: "The package starts no goroutine (checked), so all concurrency is the caller's and the package's obligations are about what two calls can share. lockset (go/cfg must-hold): every access to a field of a struct that carries a sync.(RW)Mutex happens with the write lock (writes) or at least the read lock (reads) held on every path, and no return is reachable with a lock held; one audited exception is tied to the who-calls fact that makes it sound. no-call-under-lock: nothing but map operations happens in a locked region; sync.Once is used only through Do with a function that does not re-enter. globals + ctx-private: two calls on independent data share no writable memory other than a caller-supplied cache. Since round 5 lockset and no-call-under-lock are decided on the effect normal form of every root function touching a locked type: lock wrappers, release functions returned by helpers, embedded mutexes and closures run under the lock are inlined, and reads / writes of protected fields are effects that must lie between an acquisition and a release of the right kind on every structural path.",
 		NotCovered:  "that every call returns what it would have returned alone (value statement); thread-safety of swag.NameProvider and other dependencies; caller-implemented caches",
 	})
 	registerProperty(&Property{
@@ -124,8 +124,8 @@ func init() {
 func init() {
 	registerProperty(&Property{
 		ID:          "C18",
-		Rules:       []string{"load-once", "canon-key", "globals", "root-registered", "loader-shares-state", "id-once", "switch-on-follow", "load-only-needed"},
-		Explanation: "Transparency of results is value-level and not decided. Decided: the document loader (a func-typed field of the resolver context, found by role) is called at exactly one site, which is the field's only reader; that call is reachable only on the miss branch of a cache lookup; lookup, loader call and cache fill use one key variable assigned once from normalizeBase; every successful return after the load (go/cfg) has stored the decoded document under that key (load-once). Every other cache Get/Set uses a key produced by the normaliser, with the fragment cleared (canon-key), so 'already present in the supplied cache' is decided on the key the loader would be called with. The default cache is a clone of the built-in one (globals).",
+		Rules:       []string{"load-once", "canon-key", "globals", "root-registered", "loader-shares-state", "id-once", "switch-on-follow", "load-only-needed", "supplied-cache-kept"},
+		Explanation: "Transparency of results is value-level and not decided. Decided: the document loader (a func-typed field of the resolver context, found by role) is called at exactly one site, which is the field's only reader; that call is reachable only on the miss branch of a cache lookup; lookup, loader call and cache fill use one key variable assigned once from normalizeBase; every successful return after the load (go/cfg) has stored the decoded document under that key (load-once). Every other cache Get/Set uses a key produced by the normaliser, with the fragment cleared (canon-key), so 'already present in the supplied cache' is decided on the key the loader would be called with. The default cache is a clone of the built-in one (globals). Added in round 5: on the effect normal form of the reference resolver (helpers inlined down to the cached load), every request is for the document of the normalised reference, or - for the base location - is made only where the reference is known to be local and the resolver has no in-memory root (load-only-needed); the cache defaulter hands back any non-nil cache it is given, whatever its dynamic type (supplied-cache-kept).",
 		NotCovered:  "that results are identical with and without a cache (values); the behaviour of caller-supplied cache implementations",
 	})
 	registerProperty(&Property{
